@@ -8,7 +8,10 @@ PROP = dict(
                    "parameterised by an ABSTRACT sort assumed only to return a sorted permutation (so Go's unstable sort.Slice is covered); "
                    "the runner / loader / post-processor loops are modelled with their early exits and proved to visit exactly the sorted "
                    "sequence front to back (a prefix ending at the first failing participant); so is the GetEarlyBeanReference loop "
-                   "(the smart post-processors of one early-reference request, in sorted order, each once), and EVERY Initialize of a "
+                   "(the smart post-processors of one early-reference request, in sorted order, each once), the short-circuit of createComponent "
+                   "(PostProcessBeforeInstantiation asked in sorted order up to the first answer; a supplied component gets the "
+                   "after-initialization chain only, each processor at most once; every component of a start, supplied or not, sees each "
+                   "callback log as a prefix of the sorted sequence), and EVERY Initialize of a "
                    "Configure after any sequence of SetLoaders / AddLoaders / Initialize calls. The model is tied to the code by direct "
                    "differential calls of the real SortOrderedComponents, by real application starts with logging loaders, post-processors "
                    "and runners (also with the probe in a circular reference, the processors registered in an imposed order, logging the "
@@ -30,6 +33,16 @@ PROP = dict(
              "(GetEarlyBeanReference log compared and checked against the contract per early-reference request); 2/10 (`Q`) drive one "
              "Configure through SetLoaders / AddLoaders / Initialize sequences (half of them: Initialize, SetLoaders of the same size, "
              "Initialize [, AddLoaders, Initialize]), contract checked on every Initialize against the loaders registered then; "
+             "after these n cases, n/5 `SB` starts: TWO watched components (ordprobe, ordtwin) and InstantiationAware processors that SUPPLY an "
+             "instance from PostProcessBeforeInstantiation (marker b: for ordprobe, d: for ordtwin; 7/8 of the cases: one, the other, both by one "
+             "processor, both by two; 1/10 with a processor failing there, marker %; 1/2 with a third of the processors REPLACING the watched "
+             "components after initialization, marker r; suppliers in all three order classes, LazyInit or eager, only where the asked prefix does "
+             "not depend on tie order), every callback of every processor logged per component (PostProcessBeforeInstantiation, "
+             "AfterInstantiation, BeforeInitialization, AfterInitialization) plus what the component finally is; oracles per component: each log "
+             "under the contract, each participant once, a supplied component gets the after-initialization chain and nothing else "
+             "(start-binst-*, start-after-*, start-shortcut); and n/5 starts with ZERO-SIZE runners (marker e: twelve field-less Go types, three "
+             "per class, which report through a package-level record of the current start) next to ordinary ones: at least two zero-size "
+             "runners of different Go types among three or more runners, a quarter of these starts with the probe in a circular reference; a third of the `SB` starts has zero-size runners too; "
              "distinct = distinct scenario lines",
         trusted_base=COMMON_TB + ["Go sort.Slice meets SortSpec (permutation, ordered by the comparator) — hypothesis of the theorems, exercised by the oracles",
                                   "Go interface type assertions as modelled by Part.ofIfaces (validated by the correspondence, incl. Priority-without-Order)"],
@@ -39,5 +52,7 @@ PROP = dict(
                      "GetEarlyBeanReference callbacks return the component they were given without error (an error there would make the "
                      "other logs depend on which member of the cycle is created first); one early-reference request per `SC` start",
                      "a LazyInit post-processor is used as registered (never created by the factory); the eager ones are fetched from the factory and, having no injection points, are the registered instances too — unless a decorating processor (marker w) is ahead of them in the sorted raw slice: then the factory's answer is a decorator around the registered instance (modelled by Driver.Order.resolveIn; C12_resolved_processors_invoked_in_order / C12_decorated_processors_keep_position hold for every such answer)",
+                     "zero-size runners read their Order and report their Run through a package-level record of the current start (one start at a time per harness process)",
+                     "`SB` starts: the two watched components have no injection points and are created by Refresh in name order (ordprobe, ordtwin); a supplied instance is a fresh object of another Go type",
                      "user post-processors in the starts have no injection points (the known limitation about Priority-ordered processors created early does not interfere)"],
     )
